@@ -248,6 +248,56 @@ func init() {
 		if n == 0 || m == 0 {
 			return run.Brokenf("TLC produced no accuracy behaviours (%d dumped, %d simulated)", n, m)
 		}
+		// every (batch size, number of matches) up to 64 (96)
+		files, err := c.Generate("Gen_C19", 1, 20*time.Minute)
+		if err != nil {
+			return err
+		}
+		nk := 0
+		rng := rand.New(rand.NewSource(c.Seed))
+		err = run.ReadLines(files, func(line []byte) error {
+			var cs struct {
+				N, K                             int
+				P, T                             []int
+				Total, Correct, Total2, Correct2 int
+			}
+			if err := json.Unmarshal(line, &cs); err != nil {
+				return run.Brokenf("case: %v", err)
+			}
+			perm := rng.Perm(cs.N)
+			p, t := make([]int, cs.N), make([]int, cs.N)
+			for i, j := range perm {
+				p[i], t[i] = cs.P[j], cs.T[j]
+			}
+			first := accCall{Kind: "acc", P: []int{1, 2, 0, 1, 2}, T: []int{1, 2, 1, 2, 0}}
+			cut := 1 + rng.Intn(cs.N)
+			hist := [][]accCall{
+				{{Kind: "acc", P: p, T: t}},
+				{first, {Kind: "bad", Bad: "length-mismatch"}, {Kind: "acc", P: p, T: t}},
+				{{Kind: "acc", P: p[:cut], T: t[:cut]}, {Kind: "bad", Bad: "rank2"}, {Kind: "acc", P: p[cut:], T: t[cut:]}},
+			}
+			want := []float64{float64(cs.Correct) / float64(cs.Total), float64(cs.Correct2) / float64(cs.Total2), float64(cs.Correct) / float64(cs.Total)}
+			for h, calls := range hist {
+				if h == 2 && cut == cs.N {
+					continue
+				}
+				got, d := accExec(calls)
+				if d == "" && got != want[h] {
+					d = fmt.Sprintf("Result is %v, specification %v", got, want[h])
+				}
+				if d != "" {
+					c.Violate(fmt.Sprintf("accuracy with a batch of %d items of which %d match (history form %d): %s", cs.N, cs.K, h, d), map[string]any{"accuracy_nk": cs, "detail": d})
+					return nil
+				}
+			}
+			nk++
+			c.Count(fmt.Sprintf("nk-%d-%d", cs.N, cs.K), true)
+			return nil
+		})
+		if err != nil {
+			return err
+		}
+		c.AddExtra("batch_size_grid", fmt.Sprintf("%d (size, matches) pairs, each as a single call, after another batch and a rejected call, and split in two", nk))
 		c.Traces += n + m
 		c.AddExtra("behaviours_replayed", fmt.Sprintf("%d transitions of the exhaustive graph + %d prefixes of simulated histories up to 80 calls", n, m))
 		return nil
